@@ -701,7 +701,11 @@ class Agent_0(rpu.AgentComponent):
     def stop(self):
 
         self._log.info('stop agent')
-        self._final_cause = 'cancel'
+
+        # keep the cause if it is already known (e.g. 'timeout')
+        if not self._final_cause:
+            self._final_cause = 'cancel'
+
         super().stop()
         self._session.close()
 
